@@ -4,11 +4,14 @@ package main
 // the real operations: gomatrixserverlib.SignJSON / VerifyJSON / ListKeyIDs, each under recover().
 
 import (
+	"bytes"
 	"crypto/ed25519"
 	"crypto/sha256"
 	"encoding/base64"
 	"encoding/binary"
+	"encoding/json"
 	"fmt"
+	"math/big"
 	"math/rand"
 	"reflect"
 	"sort"
@@ -38,10 +41,13 @@ var kidPairs = [][]string{
 }
 var kidPool = []string{"ed25519:1", "ed25519:auto", "ed25519:a_b", "ed25519:0", "ed25519:Zz9", "ed25519:p2", "ed25519:é", "ed25519:a.b"}
 
-// top-level member names.  Names that need escaping in canonical JSON (quote, backslash, control characters)
-// are left to C01: the pinned canonicaliser is known to write such keys unescaped.
+// top-level member names, including names that must be written with escapes in canonical JSON (quote,
+// backslash, control characters: their escaped spelling orders differently from their value) and names that
+// coincide with what is an entity name or a key ID elsewhere in the document.
 var memberPool = []string{"a", "b", "c", "content", "type", "é", "z", "0", "😀", "room_id", "a.b", "sig*", "~", "auth_events",
-	"e\u0301", "hashes", "_", "ÿ", "\uffee", "origin", "x y", "d"}
+	"e\u0301", "hashes", "_", "ÿ", "\uffee", "origin", "x y", "d",
+	"a\"b", "back\\slash", "\n", "\x00", "\x1f", "tab\t", "\"", "\\", "A", "\x7f",
+	"example.org", "ed25519:1", "matrix.org"}
 
 // ordinary members whose names look like the two special ones (one in six documents gets one)
 var lookalikePool = []string{"Signatures", "Unsigned", "signature", "unsigned_", "SIGNATURES", "\u017fignatures", "un\u017figned", "signatures ", "_unsigned"}
@@ -89,12 +95,24 @@ var valuePairs = [][2]string{
 	{`{"x":1,"y":2}`, `{"x":2,"y":1}`}, {`[[]]`, `[]`}, {`"<"`, `"\\u003c"`}, {`"\n"`, `"n"`}, {`"😀"`, `"😁"`},
 	{`"/"`, `"\\/"`}, {`{"a":null}`, `{}`}, {`[null]`, `[]`}, {`true`, `"true"`}, {`" "`, `" "`},
 	{`"\u007f"`, `"\u0080"`}, {`-9007199254740991`, `9007199254740991`}, {`{"é":1}`, `{"e":1}`}, {`100`, `1000`},
+	// numbers: around 2^53 and beyond (neighbours that collapse in float64), fractions, exponent spellings whose
+	// tampering is one character.  The two values of a pair always differ numerically; two spellings of one
+	// number (1.0 / 1, 1e2 / 100, -0 / 0) are never opposed: the property does not say whether that is a change.
+	{`9007199254740991`, `9007199254740992`}, {`9007199254740992`, `9007199254740993`}, {`-9007199254740992`, `-9007199254740993`},
+	{`9007199254740993`, `9007199254740994`}, {`1234567890123456789`, `1234567890123456790`}, {`18446744073709551616`, `18446744073709551615`},
+	{`1e-05`, `1e05`}, {`2.5E-01`, `2.5E01`}, {`-0.5`, `0.5`}, {`1.5`, `1.6`}, {`1E-7`, `1E7`}, {`3E+2`, `3E-2`}, {`1e30`, `1e31`},
+	{`[1e-05,7]`, `[1e05,7]`}, {`{"scale":-0.5}`, `{"scale":0.5}`}, {`{"n":[9007199254740993]}`, `{"n":[9007199254740992]}`},
+	{`123456789012345678901234567890`, `123456789012345678901234567891`}, {`0.1`, `0.10000000000000001`},
+	// keys that need escapes, in nested objects
+	{`{"\n":1,"A":2}`, `{"\n":2,"A":1}`}, {`{"\"":1}`, `{"\\":1}`}, {`{"\u0000":[],"\u001f":{}}`, `{"\u0000":{},"\u001f":[]}`},
 }
 var valuePool = []string{
 	`"plain"`, `"q\"uote\\back/slash"`, `"\b\f\n\r\t"`, `"\u0000\u001f\u007f"`, `"é 😀"`, `""`, `"<>&"`,
 	`0`, `1`, `-1`, `9007199254740991`, `-9007199254740991`, `10`, `1234567890`, `true`, `false`, `null`,
 	`[]`, `[1,"a",{"k":null}]`, `{}`, `{"z":1,"a":{"y":[],"b":"é"}}`, `{"signatures":{"x":{"ed25519:1":"AAAA"}},"unsigned":{"age":5}}`,
 	`"😀 astral"`, `{"😀":"😀","é":["é"],"a.b":{"*":1}}`, `[[[[1]]]]`, `"-0"`, `"1e5"`, `" leading"`,
+	`9007199254740992`, `9007199254740993`, `-9007199254740993`, `1e-05`, `2.5E-01`, `-0.5`, `1.5`, `3E+2`, `1e30`,
+	`{"\n":false,"A":true,"\"":[1e-05],"\\":{"\t":null}}`, `[0.5,-1.5,1E-7]`,
 }
 
 var unsignedPairs = [][2]string{
@@ -114,6 +132,8 @@ var nestedShapes = []nestedShape{
 	{`{"n":{"d":%s},"k":[1,{"d":"decoy"}]}`, `{"n":{},"k":[1,{"d":"decoy"}]}`},
 	{`{"é":"x","d":%s,"D":0}`, `{"é":"x","D":0}`},
 	{`{"k":[{"d":%s}]}`, `{"k":[{}]}`},
+	{`{"\n":false,"A":true,"d":%s}`, `{"\n":false,"A":true}`},
+	{`{"\"":{"d":%s},"\\":1e-05,"\u0000":[9007199254740993]}`, `{"\"":{},"\\":1e-05,"\u0000":[9007199254740993]}`},
 }
 
 type world struct {
@@ -175,6 +195,49 @@ func newWorld(rng *rand.Rand, nEnt, nKid, nKey int) *world {
 	return w
 }
 
+// sameValue compares two value trees; numbers are compared by their exact numeric value (so that a respelling
+// like 1.0 -> 1 is not called a change, while 9007199254740993 -> 9007199254740992 is).
+func sameValue(a, b interface{}) bool {
+	switch x := a.(type) {
+	case map[string]interface{}:
+		y, ok := b.(map[string]interface{})
+		if !ok || len(x) != len(y) {
+			return false
+		}
+		for k, v := range x {
+			w, ok := y[k]
+			if !ok || !sameValue(v, w) {
+				return false
+			}
+		}
+		return true
+	case []interface{}:
+		y, ok := b.([]interface{})
+		if !ok || len(x) != len(y) {
+			return false
+		}
+		for i := range x {
+			if !sameValue(x[i], y[i]) {
+				return false
+			}
+		}
+		return true
+	case json.Number:
+		y, ok := b.(json.Number)
+		if !ok {
+			return false
+		}
+		if x == y {
+			return true
+		}
+		p, ok1 := new(big.Rat).SetString(string(x))
+		q, ok2 := new(big.Rat).SetString(string(y))
+		return ok1 && ok2 && p.Cmp(q) == 0
+	default:
+		return reflect.DeepEqual(a, b)
+	}
+}
+
 func sortedKeys[V any](m map[string]V) []string {
 	var ks []string
 	for k := range m {
@@ -227,10 +290,25 @@ type observation struct {
 	Kids  map[string][]string // entity label -> key ID labels (names that are not in the universe are kept verbatim)
 	Errs  map[string]string   // "E|K|P" -> VerifyJSON error text of the non-verifying triples
 	Panic string
+	// facts outside the matrix that need no model: "" or a (class, description) of what went wrong
+	OddClass, Odd string
+}
+
+// byte strings that are not ed25519 public keys: VerifyJSON must refuse them for every name and key ID
+func malformedKeys(good ed25519.PublicKey) [][]byte {
+	return [][]byte{good[:31], {}, nil, append(append([]byte{}, good...), 0)}
 }
 
 func (w *world) observe(doc []byte) *observation {
 	o := &observation{Kids: map[string][]string{}, Errs: map[string]string{}, Ver: [][]string{}}
+	given := append([]byte{}, doc...)
+	defer func() {
+		// the same buffer went through every call above: had one of them written to it, later answers would
+		// be about another document
+		if o.Panic == "" && o.Odd == "" && !bytes.Equal(given, doc) {
+			o.OddClass, o.Odd = "input-modified/verify", fmt.Sprintf("VerifyJSON / ListKeyIDs wrote to their input: %q became %q", given, doc)
+		}
+	}()
 	kidLabel := map[string]string{}
 	for l, n := range w.kid {
 		kidLabel[n] = l
@@ -247,6 +325,19 @@ func (w *world) observe(doc []byte) *observation {
 					o.Ver = append(o.Ver, []string{e, k, p})
 				} else {
 					o.Errs[e+"|"+k+"|"+p] = err.Error()
+				}
+			}
+		}
+		for _, k := range sortedKeys(w.kid) {
+			for n, bad := range malformedKeys(w.pub["P1"]) {
+				err, pan := safeVerify(w.ent[e], w.kid[k], bad, doc)
+				if pan != "" {
+					o.Panic = fmt.Sprintf("VerifyJSON with a public key of %d bytes: %s", len(bad), pan)
+					return o
+				}
+				if err == nil && o.Odd == "" {
+					o.OddClass = "unsound/malformed-public-key"
+					o.Odd = fmt.Sprintf("VerifyJSON(%q, %q) accepts a public key of %d bytes (variant %d)", w.ent[e], w.kid[k], len(bad), n)
 				}
 			}
 		}
@@ -360,7 +451,11 @@ type stepFailure struct {
 // specification says SignJSON leaves alone (every member but signatures, every other signature entry).
 func (d *document) libSign(name, kid string, priv ed25519.PrivateKey) *stepFailure {
 	shape := d.sigShape(name)
+	given := append([]byte{}, d.bytes...)
 	out, err, pan := safeSign(name, kid, priv, d.bytes)
+	if !bytes.Equal(given, d.bytes) {
+		return &stepFailure{"input-modified/sign", fmt.Sprintf("SignJSON(%q, %q) wrote to its input: %q became %q", name, kid, given, d.bytes)}
+	}
 	if pan != "" {
 		return &stepFailure{"sign/panic/signatures=" + shape, fmt.Sprintf("SignJSON(%q, %q) panicked: %s on %s", name, kid, pan, d.bytes)}
 	}
@@ -377,7 +472,7 @@ func (d *document) libSign(name, kid string, priv ed25519.PrivateKey) *stepFailu
 			continue
 		}
 		now, ok := top2[k]
-		if !ok || !reflect.DeepEqual(old, now) {
+		if !ok || !sameValue(old, now) {
 			cl := "sign/member-changed"
 			if k == "unsigned" {
 				cl = "sign/unsigned-changed"
@@ -418,8 +513,17 @@ func (d *document) libSign(name, kid string, priv ed25519.PrivateKey) *stepFailu
 
 // foreignSign is the action ForeignSign: another implementation signs its own canonical encoding of the
 // projection and writes the entry into the signatures member; the document keeps its presentation.
+//
+// Without a key (label "junk") what is written is well-formed unpadded base64 that is no signature: random
+// bytes of the right length, or a byte string that is one byte short / long, three bytes, or empty.
 func (d *document) foreignSign(name, kid string, priv ed25519.PrivateKey, urlSafe bool, rng *rand.Rand) {
-	sig := ed25519.Sign(priv, canonical(d.projection()))
+	var sig []byte
+	if priv != nil {
+		sig = ed25519.Sign(priv, canonical(d.projection()))
+	} else {
+		sig = make([]byte, []int{64, 64, 63, 65, 3, 0}[rng.Intn(6)])
+		rng.Read(sig)
+	}
 	enc := base64.RawStdEncoding
 	if urlSafe {
 		enc = base64.RawURLEncoding
